@@ -581,8 +581,20 @@ def run_impl(c):
                 o["args_unchanged"] = all(np.array_equal(x, y) for x, y in zip(keep, (ps, rs, al)))
                 return o
             if k == "line_ctor":
-                ln = Line(np.array(c["point"]), np.array(c["along"]))
-                return {"refs": [x.tolist() for x in ln.reference_points]}
+                # the model's line_ctor has no assume_normalized parameter (the constructor ignores the flag):
+                # observe the flagged call form too, so that a constructor that starts to depend on it is seen
+                def flagged():
+                    l2 = Line(np.array(c["point"]), np.array(c["along"]), assume_normalized=True)
+                    return {"refs": [x.tolist() for x in l2.reference_points]}
+                ft = call_impl(flagged)
+                ft.pop("msg", None)
+
+                def plain():
+                    ln = Line(np.array(c["point"]), np.array(c["along"]))
+                    return {"refs": [x.tolist() for x in ln.reference_points]}
+                o = call_impl(plain)
+                o["flag_true"] = ft
+                return o
             if k == "line_from_points":
                 ln = Line.from_points(np.array(c["p1"]), np.array(c["p2"]))
                 return {"refs": [x.tolist() for x in ln.reference_points]}
@@ -742,6 +754,9 @@ def _failures(c, o):
         f = _line_raise(along, o)
         if f:
             return [f]
+        if "flag_true" in o and o["flag_true"] != {kk: vv for kk, vv in o.items() if kk in ("raise", "refs")}:
+            return [("other", "Line(point, along, assume_normalized=True) is accepted/rejected or built differently "
+                     "from the default call form: %r" % (o["flag_true"],))]
         if "raise" in o:
             return []
         point = c["point"] if k == "line_ctor" else c["p1"]
